@@ -248,10 +248,61 @@ class Ctx:
         shutil.rmtree(self.work, ignore_errors=True)
 
 
+def gen_failures(module):
+    """elaborate a generated module directly and map error lines to theorem names"""
+    path = os.path.join(LEAN, module.replace('.', '/') + '.lean')
+    rc, out, err = run(['lake', 'env', 'lean', path], cwd=LEAN, timeout=1800)
+    src = open(path).read().splitlines()
+    bad = {}
+    for m in re.finditer(r'\.lean:(\d+):\d+: error:?\s*(.*)', out + err):
+        ln = int(m.group(1))
+        name = None
+        for k in range(ln - 1, -1, -1):
+            mm = re.match(r'\s*theorem\s+(\S+)', src[k]) if k < len(src) else None
+            if mm:
+                name = mm.group(1)
+                break
+        bad[name or ('line %d' % ln)] = m.group(2)[:200]
+    return bad
+
+
 def prove(ctx, modules, gen_modules=()):
     """step 2. Build theorem modules, audit axioms, grep."""
     t = time.time()
     ok, log = lake_build(list(modules) + list(gen_modules))
+    if not ok and gen_modules:
+        # hand-written part alone
+        ok_hand, log_hand = lake_build(list(modules))
+        if ok_hand:
+            bad_total = 0
+            for gm in gen_modules:
+                ok_g, _ = lake_build([gm])
+                names = theorems_in(gm)
+                if ok_g:
+                    continue
+                bad = gen_failures(gm)
+                ns = gm + '.'
+                for n_ in names:
+                    short = n_.split('.')[-1]
+                    if short in bad:
+                        ctx.oblige(n_, False, 'kernel evaluation failed: ' + bad[short])
+                        bad_total += 1
+                    else:
+                        ctx.oblige(n_, True, 'elaborated (module has other failing obligations; no axiom audit)')
+                if not bad:
+                    ctx.oblige(gm, False, 'module failed to build')
+            ctx.extra['failed_generated_obligations'] = bad_total
+            aok, res, alog = axiom_audit(ctx.pid, list(modules), [t_ for m_ in modules for t_ in theorems_in(m_)])
+            for m_ in modules:
+                for t_ in theorems_in(m_):
+                    if t_ in res and set(res[t_]) <= ALLOWED_AXIOMS:
+                        ctx.oblige(t_, True, 'axioms [' + ','.join(res[t_]) + ']')
+                    else:
+                        ctx.oblige(t_, False, 'axiom audit: ' + str(res.get(t_)))
+            hits = forbidden_hits(lean_files())
+            ctx.oblige('no_forbidden_tokens', not hits, '; '.join(hits[:5]))
+            ctx.extra['lake_build_s'] = round(time.time() - t, 1)
+            return False
     ctx.extra['lake_build_s'] = round(time.time() - t, 1)
     failed_mods = []
     if not ok:
